@@ -85,6 +85,38 @@ func generate(p *Program, sel func(c *Contract) bool) []*funcReport {
 			rep.Err = "contract names a function that does not exist: " + k
 			continue
 		}
+		if c.SplitExpr != nil {
+			// one session per case; the cases must be exhaustive under the preconditions
+			reps = reps[:len(reps)-1]
+			for i, v := range c.SplitVals {
+				c2 := *c
+				c2.splitCase = true
+				c2.Requires = append(append([]Clause{}, c.Requires...), Clause{Text: "(" + c.SplitExpr.Text + ") == " + v, File: c.SplitExpr.File, Line: c.SplitExpr.Line})
+				if i == 0 {
+					var ds []string
+					for _, w := range c.SplitVals {
+						ds = append(ds, "("+c.SplitExpr.Text+") == "+w)
+					}
+					c2.exhaustive = &Clause{Text: strings.Join(ds, " || "), File: c.SplitExpr.File, Line: c.SplitExpr.Line}
+					c2.exhaustiveReq = len(c.Requires)
+				}
+				r2 := &funcReport{Key: k}
+				reps = append(reps, r2)
+				s, err := verifyFunction(p, fn, &c2)
+				r2.Session = s
+				if err != nil {
+					r2.Err = err.Error()
+					continue
+				}
+				suffix := "[" + c.SplitExpr.Text + "=" + v + "]"
+				for _, o := range s.obls {
+					o.Name = strings.Replace(o.Name, k+"#", k+suffix+"#", 1)
+				}
+				r2.Obls = s.obls
+				r2.SpecDefs = p.specDefs(s.usedSpec)
+			}
+			continue
+		}
 		s, err := verifyFunction(p, fn, c)
 		rep.Session = s
 		if err != nil {
@@ -115,7 +147,7 @@ func discharge(reps []*funcReport, workDir string, timeout time.Duration, need i
 			jobs = append(jobs, job{r, o})
 		}
 	}
-	par := 8
+	par := 6
 	sem := make(chan struct{}, par)
 	var wg sync.WaitGroup
 	for _, j := range jobs {
@@ -130,7 +162,7 @@ func discharge(reps []*funcReport, workDir string, timeout time.Duration, need i
 			tmo := timeout
 			nd := need
 			if j.o.Cover {
-				tmo = 3 * time.Second
+				tmo = 2 * time.Second
 				nd = 1
 			}
 			res := raceSolvers(file, tmo, nd)
